@@ -9,40 +9,50 @@ Open Scope N_scope.
 (* after any history of store / compute / load operations, Store returns (status and link) exactly
    what ComputeLink returns: no state of the link system or the storage enters the link *)
 Theorem C05_store_eq_compute :
-  forall (hasher_ok : N -> bool) (hash : N -> bytes -> bytes) (codecs : N -> option codec)
+  forall (hasher_ok : N -> bool) (hash : N -> bytes -> bytes) (encoders decoders : N -> option codec)
          (sk : skind) (trusted : bool) (h : list lop) (lp : lproto) (v : dm),
-    fst (store hasher_ok hash codecs sk honest_w (snd (run hasher_ok hash codecs sk trusted [] h)) lp v) =
-    compute hasher_ok hash codecs lp v.
+    fst (store hasher_ok hash encoders true sk honest_w (snd (run hasher_ok hash encoders decoders true sk trusted [] h)) lp v) =
+    compute hasher_ok hash encoders lp v.
 Proof. exact store_eq_compute_history. Qed.
 Print Assumptions C05_store_eq_compute.
 
+(* ... and whatever the storage WRITER does during a Store (transient or sticky failures, short
+   writes — the storage itself stays honest): a Store that reports Ok returns ComputeLink's result *)
+Theorem C05_store_faulty_writer_eq_compute :
+  forall (hasher_ok : N -> bool) (hash : N -> bytes -> bytes) (encoders : N -> option codec)
+         (sk : skind) (w : wbeh) (st : storage) (lp : lproto) (v : dm),
+    so_status (fst (store hasher_ok hash encoders true sk w st lp v)) = SOk ->
+    fst (store hasher_ok hash encoders true sk w st lp v) = compute hasher_ok hash encoders lp v.
+Proof. exact storeW_ok_eq_compute. Qed.
+Print Assumptions C05_store_faulty_writer_eq_compute.
+
 (* the link of (prototype, value) is the same after any two histories *)
 Theorem C05_link_fn :
-  forall (hasher_ok : N -> bool) (hash : N -> bytes -> bytes) (codecs : N -> option codec)
+  forall (hasher_ok : N -> bool) (hash : N -> bytes -> bytes) (encoders decoders : N -> option codec)
          (sk : skind) (trusted : bool) (h1 h2 : list lop) (lp : lproto) (v : dm),
-    fst (store hasher_ok hash codecs sk honest_w (snd (run hasher_ok hash codecs sk trusted [] h1)) lp v) =
-    fst (store hasher_ok hash codecs sk honest_w (snd (run hasher_ok hash codecs sk trusted [] h2)) lp v).
+    fst (store hasher_ok hash encoders true sk honest_w (snd (run hasher_ok hash encoders decoders true sk trusted [] h1)) lp v) =
+    fst (store hasher_ok hash encoders true sk honest_w (snd (run hasher_ok hash encoders decoders true sk trusted [] h2)) lp v).
 Proof. exact link_fn_history. Qed.
 Print Assumptions C05_link_fn.
 
 (* for a codec whose encoder is insensitive to map entry order (the key-sorting DAG codecs), two
    values that differ only in entry order get the same link *)
 Theorem C05_link_fn_perm :
-  forall (hasher_ok : N -> bool) (hash : N -> bytes -> bytes) (codecs : N -> option codec)
+  forall (hasher_ok : N -> bool) (hash : N -> bytes -> bytes) (encoders : N -> option codec)
          (same : dm -> dm -> Prop) (lp : lproto) (c : codec) (dom : dm -> Prop) (v1 v2 : dm),
-    codecs (lp_codec lp) = Some c ->
+    encoders (lp_codec lp) = Some c ->
     order_insensitive same c dom ->
     dom v1 -> dom v2 -> same v1 v2 ->
-    compute hasher_ok hash codecs lp v1 = compute hasher_ok hash codecs lp v2.
+    compute hasher_ok hash encoders lp v1 = compute hasher_ok hash encoders lp v2.
 Proof. exact link_fn_perm. Qed.
 Print Assumptions C05_link_fn_perm.
 
 (* invariant of every history from an empty store: each block sits under the key of a link that
    its bytes hash to *)
 Theorem C05_blocks_ok :
-  forall (hasher_ok : N -> bool) (hash : N -> bytes -> bytes) (codecs : N -> option codec)
+  forall (hasher_ok : N -> bool) (hash : N -> bytes -> bytes) (encoders decoders : N -> option codec)
          (sk : skind) (tr : bool) (h : list lop),
-    blocks_ok hash sk (snd (run hasher_ok hash codecs sk tr [] h)).
+    blocks_ok hash sk (snd (run hasher_ok hash encoders decoders true sk tr [] h)).
 Proof. exact blocks_ok_history. Qed.
 Print Assumptions C05_blocks_ok.
 
@@ -51,32 +61,32 @@ Print Assumptions C05_blocks_ok.
    history put different bytes under the same storage key (possible only when (truncated) digests
    collide; see collision_possible in Proofs/LinkC05.v) *)
 Theorem C05_store_load :
-  forall (hasher_ok : N -> bool) (hash : N -> bytes -> bytes) (codecs : N -> option codec)
+  forall (hasher_ok : N -> bool) (hash : N -> bytes -> bytes) (encoders decoders : N -> option codec)
          (sk : skind) (tr : bool) (h1 h2 : list lop) (lp : lproto) (v : dm) (l : link)
          (b : bytes) (f : lform) (cl : codec) (v' : dm) (e : bool),
-    store_plan hasher_ok hash codecs lp v = Some (l, b) ->
-    no_collision hasher_ok hash codecs sk (skey sk l) b (h1 ++ OStore lp v :: h2) ->
-    codecs (lp_codec (link_proto l)) = Some cl ->
+    store_plan hasher_ok hash encoders lp v = Some (l, b) ->
+    no_collision hasher_ok hash encoders sk (skey sk l) b (h1 ++ OStore lp v :: h2) ->
+    decoders (lp_codec (link_proto l)) = Some cl ->
     c_dec cl b = Some (v', lenN b, e) ->
-    let st := snd (run hasher_ok hash codecs sk tr [] (h1 ++ OStore lp v :: h2)) in
-    load_any hasher_ok hash codecs f tr (honest_read sk st l) l = loaded f v' b /\ verify hash l b = VOk.
+    let st := snd (run hasher_ok hash encoders decoders true sk tr [] (h1 ++ OStore lp v :: h2)) in
+    load_any hasher_ok hash decoders f tr (honest_read sk st l) l = loaded f v' b /\ verify hash l b = VOk.
 Proof. exact store_load. Qed.
 Print Assumptions C05_store_load.
 
 (* with the codec's round-trip law (decode (encode v) = canonical form of v, consuming everything)
    and a CIDv1 prototype: the node read back is the canonicalised value *)
 Theorem C05_store_load_roundtrip :
-  forall (hasher_ok : N -> bool) (hash : N -> bytes -> bytes) (codecs : N -> option codec)
+  forall (hasher_ok : N -> bool) (hash : N -> bytes -> bytes) (encoders decoders : N -> option codec)
          (sk : skind) (tr : bool) (h1 h2 : list lop) (lp : lproto) (v : dm) (l : link)
          (b : bytes) (f : lform) (c : codec) (dom : dm -> Prop) (canon : dm -> dm),
     lp_version lp = 1 ->
-    codecs (lp_codec lp) = Some c ->
+    encoders (lp_codec lp) = Some c -> decoders (lp_codec lp) = Some c ->
     roundtrips c dom canon ->
     dom v ->
-    store_plan hasher_ok hash codecs lp v = Some (l, b) ->
-    no_collision hasher_ok hash codecs sk (skey sk l) b (h1 ++ OStore lp v :: h2) ->
-    let st := snd (run hasher_ok hash codecs sk tr [] (h1 ++ OStore lp v :: h2)) in
-    load_any hasher_ok hash codecs f tr (honest_read sk st l) l = loaded f (canon v) b /\
+    store_plan hasher_ok hash encoders lp v = Some (l, b) ->
+    no_collision hasher_ok hash encoders sk (skey sk l) b (h1 ++ OStore lp v :: h2) ->
+    let st := snd (run hasher_ok hash encoders decoders true sk tr [] (h1 ++ OStore lp v :: h2)) in
+    load_any hasher_ok hash decoders f tr (honest_read sk st l) l = loaded f (canon v) b /\
     verify hash l b = VOk.
 Proof. exact store_load_roundtrip. Qed.
 Print Assumptions C05_store_load_roundtrip.
@@ -109,25 +119,25 @@ Print Assumptions C05_dagcbor_roundtrips.
 (* under any registry that maps 0x71 to dag-cbor (the default registry does), for any hash: values
    equal up to map entry order, with duplicate-free keys, get the same link *)
 Theorem C05_dagcbor_link_fn_perm :
-  forall (hasher_ok : N -> bool) (hash : N -> bytes -> bytes) (codecs : N -> option codec) (rt : bool),
-    codecs 113 = Some (dagcbor_codec rt) ->
+  forall (hasher_ok : N -> bool) (hash : N -> bytes -> bytes) (encoders : N -> option codec) (rt : bool),
+    encoders 113 = Some (dagcbor_codec rt) ->
     forall (lp : lproto) (v1 v2 : dm),
       lp_codec lp = 113 -> keys_nodup v1 -> keys_nodup v2 -> perm_eq v1 v2 ->
-      compute hasher_ok hash codecs lp v1 = compute hasher_ok hash codecs lp v2.
+      compute hasher_ok hash encoders lp v1 = compute hasher_ok hash encoders lp v2.
 Proof. exact dagcbor_link_fn_perm. Qed.
 Print Assumptions C05_dagcbor_link_fn_perm.
 
 (* ... and a stored dag-cbor link (CIDv1) loads back, with every load form, as the value with its
    maps in RFC 7049 order and the stored bytes, which hash to the link *)
 Theorem C05_dagcbor_store_load :
-  forall (hasher_ok : N -> bool) (hash : N -> bytes -> bytes) (codecs : N -> option codec) (rt : bool),
-    codecs 113 = Some (dagcbor_codec rt) ->
+  forall (hasher_ok : N -> bool) (hash : N -> bytes -> bytes) (encoders decoders : N -> option codec) (rt : bool),
+    encoders 113 = Some (dagcbor_codec rt) -> decoders 113 = Some (dagcbor_codec rt) ->
     forall (sk : skind) (tr : bool) (h1 h2 : list lop) (lp : lproto) (v : dm) (l : link) (b : bytes) (f : lform),
       lp_version lp = 1 -> lp_codec lp = 113 -> dagcbor_dom v ->
-      store_plan hasher_ok hash codecs lp v = Some (l, b) ->
-      no_collision hasher_ok hash codecs sk (skey sk l) b (h1 ++ OStore lp v :: h2) ->
-      let st := snd (run hasher_ok hash codecs sk tr [] (h1 ++ OStore lp v :: h2)) in
-      load_any hasher_ok hash codecs f tr (honest_read sk st l) l = loaded f (sort_maps rfc_ltb v) b /\
+      store_plan hasher_ok hash encoders lp v = Some (l, b) ->
+      no_collision hasher_ok hash encoders sk (skey sk l) b (h1 ++ OStore lp v :: h2) ->
+      let st := snd (run hasher_ok hash encoders decoders true sk tr [] (h1 ++ OStore lp v :: h2)) in
+      load_any hasher_ok hash decoders f tr (honest_read sk st l) l = loaded f (sort_maps rfc_ltb v) b /\
       verify hash l b = VOk.
 Proof. exact dagcbor_store_load. Qed.
 Print Assumptions C05_dagcbor_store_load.
